@@ -2,6 +2,7 @@
 import re
 
 T = "RsslVerif.Thm.C03."
+TX = "RsslVerif.Thm.C03X."
 
 NONCONST = set("vrkun")
 
@@ -164,7 +165,7 @@ def search(ctx):
 SPEC = {
     "id": "C03",
     "gens": ["RankTable", "TypingTables", "IntrinsicSigs", "ElabTables"],
-    "lean_modules": ["RsslVerif.Thm.C03"],
+    "lean_modules": ["RsslVerif.Thm.C03", "RsslVerif.Thm.C03X"],
     "theorems": [T + n for n in [
         "find_sound", "find_rejects_rvalue_to_lvalue", "find_keeps_const",
         "elab_sound", "elab_debug_check_redundant", "elabStmt_sound", "ids_in_range",
@@ -174,7 +175,23 @@ SPEC = {
         "elab_rejects_assign_to_rvalue_form", "elab_rejects_increment_of_rvalue_form",
         "assignment_operands", "binary_operands_equal", "binop_rules",
         "elab_assign_exact", "elab_arith_exact", "elab_call_args_exact",
-        "out_arg_receives_cast"]],
+        "out_arg_receives_cast"]] + [TX + n for n in [
+        # the extended language (swizzles, members, subscripts, constructors, intrinsic functions, statements)
+        "elab_sound", "elab_debug_check_redundant", "elab_stmt_sound", "ids_in_range",
+        "elab_rejects_assign_to_const", "elab_rejects_assign_to_rvalue", "elab_rejects_increment",
+        "elab_rejects_call", "elab_rejects_arity", "elab_rejects_unconvertible", "elab_rejects_out_arg_rvalue",
+        "elab_rejects_out_arg_const", "elab_rejects_assign_to_rvalue_form", "elab_rejects_increment_of_rvalue_form",
+        "elab_rejects_return_type", "elab_rejects_return_in_void", "elab_rejects_return_void", "elab_rejects_init_type",
+        "elab_rejects_aggregate_dimension", "elab_rejects_aggregate_matrix",
+        "elab_rejects_ctor_count", "elab_rejects_ctor_of_non_numeric", "elab_ctor_exact",
+        "elab_rejects_index_type", "elab_index_exact", "elab_rejects_write_to_repeated_swizzle",
+        "elab_rejects_const_write_chain", "elab_rejects_const_increment_chain", "elab_rejects_const_array_write_chain",
+        "elab_rejects_const_out_arg_chain", "elab_rejects_rvalue_write_chain_partial",
+        "elab_rejects_rvalue_out_arg_chain_partial",
+        "assignment_operands", "binary_operands_equal", "binop_rules",
+        "elab_assign_exact", "elab_arith_exact", "elab_call_args_exact",
+        "swizzle_in_range", "matrix_swizzle_in_range", "member_of_struct", "ctor_slots_exact",
+        "const_struct_member_write_accepted", "rvalue_subscript_write_accepted", "const_array_assignment_accepted"]],
     "harness": "c03",
     "nontrivial": nontrivial,
     "finding_key": finding_key,
